@@ -95,7 +95,7 @@ ALL_SPECS = ["brine_spec", "channel_spec", "policy_spec", "refcount_spec", "prot
 PLANS["C06"] = dict(
     title="Attribute access by the peer follows the connection's policy, and only its own",
     contracts=ALL_CONTRACTS, specs=ALL_SPECS, table="module",
-    targets=ATTR_FUNCS + SERVICE_HOOKS, lemmas=[], compositions=[],
+    targets=ATTR_FUNCS + SERVICE_HOOKS + [PROTO + "__init__"], lemmas=[], compositions=[],
     native_focus=[(PROTO + "_check_attr", "default")],
     design_ref="DESIGN.md section 4, C06",
     assumptions=COMMON_ASSUMPTIONS + [
@@ -107,6 +107,8 @@ PLANS["C06"] = dict(
         "type invariant of a connection's configuration (precondition): the seven switches are bools, the prefix is text",
         "when a name is allowed AND the object has an exposed twin, either may be accessed (the statement does not "
         "choose); every other case is pinned by the statement",
+        "`and only its own`: Connection.__init__ is verified to give each connection its own newly created copy of the "
+        "configuration (the caller's entries over the defaults) - one connection's policy cannot be another's",
     ],
 )
 
